@@ -71,6 +71,19 @@ Msgs0  == {[pre |-> <<p>>, upd |-> <<>>] : p \in PreRRs} \cup {[pre |-> <<>>, up
 \* well-formed single-RR update
 Setup  == {[pre |-> <<>>, upd |-> <<u>>] : u \in GoodUpd}
 SetupLite == {[pre |-> <<>>, upd |-> <<u>>] : u \in DelRRs \cup DelSets \cup {RR(o, "IN", "CNAME", 300, 1) : o \in Own}}
+\* serial corner: an SOA update RR at distance 2^31 - 1, 2^31 (RFC 1982: undefined) and 2^31 + 1
+\* from the zone serial, alone and together with a content change in the same message, from
+\* serials 0, 10, 2^31 - 2, 2^32 - 6 and 2^32 - 1.  (The SOA serials are computed for every start
+\* serial and all of them are sent from every start serial, so other distances come along.)
+S0 == <<0, 0>>
+HalfSers  == {S0, S10, SHalf, SNear, SMax}
+HalfDists == {<<32767, 65535>>, <<32768, 0>>, <<32768, 1>>}
+HalfSoas  == {SOARR(AP, "IN", 300, SerialPlus(s, d)) : s \in HalfSers, d \in HalfDists}
+HalfAdd   == RR(NA, "IN", "A", 300, 2)
+HalfDel   == RR(NA, "NONE", "A", 0, 1)
+MsgsHalf  == {[pre |-> <<>>, upd |-> u] :
+                u \in UNION {{<<x>>, <<x, HalfAdd>>, <<HalfAdd, x>>, <<x, HalfDel>>} : x \in HalfSoas}}
+MsgsAfter == {[pre |-> <<>>, upd |-> <<RR(NB, "IN", "A", 300, 1)>>], [pre |-> <<>>, upd |-> <<RR(NB, "NONE", "A", 0, 1)>>]}
 \* serial corner: updates around the wrap
 WrapUpd == {RR(NA, "IN", "A", 300, 2), RR(NA, "NONE", "A", 0, 1), RR(NB, "IN", "CNAME", 300, 2),
             SOARR(AP, "IN", 300, <<0, 3>>), SOARR(AP, "IN", 300, <<65535, 65535>>), SOARR(AP, "IN", 300, <<65535, 0>>),
